@@ -232,6 +232,9 @@ def r45(ctx):
       if len(body) == 1 and isinstance(body[0], ast.Raise):
         continue
       allow = None
+      if req.qualname == 'LoadBalancerSink.AsyncProcessRequest':
+        # a call whose timeout event is set was already completed by its timer (the stack is drained): dropping it is the correct outcome
+        allow = lambda facts: any(c.endswith('.Get()') and t for c, t in POS(facts))
       n5 += check_request(ctx, sp, 'C01.R5', req, req.params[1], why5, allow_drop=allow)
   # hand-off targets
   lb = prog.func('scales/loadbalancer/base.py', 'LoadBalancerSink.AsyncProcessRequest')
